@@ -278,6 +278,26 @@ pub fn check(c: &Case, obs: &mut Obs) -> Result<(), String> {
             }
         }
     }
+    if any_error {
+        // a failed call must not leave anything behind: the same data, read without faults on
+        // the same thread, hashes as usual
+        let clean = Case { data: c.data.clone(), schedule: vec![], tail_chunk: c.tail_chunk };
+        for alg in ALGS {
+            let d = to_digest(alg);
+            for patch in [true, false] {
+                let mut r = SchedReader::new(&clean);
+                let got = if patch { d.hash_patch(&mut r) } else { d.hash_file(&mut r) };
+                let want = m::digest(alg, if patch { &filtered } else { data });
+                obs.verdicts += 1;
+                if got.as_ref().ok() != Some(&want) {
+                    return Err(format!(
+                        "{} {} of {} bytes right after a call that failed with an I/O error = {:?}, the standard algorithm gives {} (state left over from the failed call?)",
+                        alg.name(), if patch { "hash_patch" } else { "hash_file" }, data.len(), got, want
+                    ));
+                }
+            }
+        }
+    }
     let near = marker_near_boundary(c);
     obs.nontrivial = (data.len() >= 55 && max_reads >= 3) || near || any_error;
     if near {
